@@ -8,6 +8,7 @@ CONSTANTS
   Pts = {2}
   Layouts = {2}
   AnchorKinds = {"x"}
+  Ancs = {0, 1}
   Deviation = "single-remote-operand"
 INVARIANT TypeOK
 INVARIANT WrittenOnce
